@@ -60,8 +60,8 @@ namespace Spectator
 theorem C18_trim (s : Spectator) : s.trimEvents.eventQueue.length ≤ MAX_EVENT_QUEUE_SIZE :=
   drop_length_le _ _
 
-theorem C18_event_queue_after_handle_event (s s' : Spectator) (ev : ProtoEvent) (addr : Nat)
-    (h : s.handleEvent ev addr = .ok s') : s'.eventQueue.length ≤ MAX_EVENT_QUEUE_SIZE := by
+theorem C18_event_queue_after_handle_event (s s' : Spectator) (now : Nat) (ev : ProtoEvent) (addr : Nat)
+    (h : s.handleEvent now ev addr = .ok s') : s'.eventQueue.length ≤ MAX_EVENT_QUEUE_SIZE := by
   unfold handleEvent at h
   obtain ⟨s1, _, h⟩ := bind_ok h
   have := pure_ok h
